@@ -307,6 +307,7 @@ class MessagePassingComputation(object, metaclass=ComputationMetaClass):
         self._is_paused = False
         self._paused_messages_post = []  # type: List[Tuple[str, Any, int, Any]]
         self._paused_messages_recv = []  # type: List[Tuple[str, Any, float]]
+        self._reinjection_count = 0
 
     @property
     def name(self) -> str:
@@ -375,6 +376,7 @@ class MessagePassingComputation(object, metaclass=ComputationMetaClass):
         self.on_start()
 
         pending_msg_count = 0
+        priority = self._reinjection_priority()
         while self._paused_messages_recv:
             pending_msg_count += 1
             src, msg, t = self._paused_messages_recv.pop(0)
@@ -383,7 +385,7 @@ class MessagePassingComputation(object, metaclass=ComputationMetaClass):
             # would not be able to handle any mgt message.
             # Instead, inject the message with a slightly higher
             # priority so that we handle them before new messages.
-            self._msg_sender(src, self.name, msg, 19)
+            self._msg_sender(src, self.name, msg, priority)
         self.logger.debug(
             f"On starting {self.name}, injecting {pending_msg_count} pending messages"
             f" received before start"
@@ -435,6 +437,7 @@ class MessagePassingComputation(object, metaclass=ComputationMetaClass):
             )
 
             waiting_msg_count = 0
+            priority = self._reinjection_priority()
             while self._paused_messages_recv:
                 waiting_msg_count += 1
                 src, msg, t = self._paused_messages_recv.pop(0)
@@ -443,11 +446,20 @@ class MessagePassingComputation(object, metaclass=ComputationMetaClass):
                 # would not be able to handle any mgt message.
                 # Instead, inject the message back with a slightly higher
                 # priority so that we handle them before new messages.
-                self._msg_sender(src, self.name, msg, 19)
+                self._msg_sender(src, self.name, msg, priority)
             self.logger.debug(
                 "On resume, re-injecting %s received pending " "messages ",
                 waiting_msg_count,
             )
+
+    def _reinjection_priority(self):
+        # A re-injected message can be stored again before being handled (the
+        # computation is paused again, or is not started yet). When it is
+        # re-injected once more, it must still be handled before the messages
+        # of its previous batch that are still in the agent's queue: each
+        # batch gets a slightly higher priority than the previous one.
+        self._reinjection_count += 1
+        return 19 - self._reinjection_count * 1e-6
 
     def on_start(self):
         """
